@@ -21,6 +21,8 @@ pub struct Case {
     /// the head is preceded by an interim 100 that the flow skips (request sent with Expect: 100-continue): None, or
     /// Some((bytes of the 100, length of the prefix of it offered first, whether the head then comes in one piece))
     pub late_100: Option<(Vec<u8>, usize, bool)>,
+    /// the request carried Expect: 100-continue and no 100 has been seen (the flow would still skip one)
+    pub expecting: bool,
 }
 
 pub fn case_json(c: &Case, wire: &[u8]) -> Value {
@@ -150,7 +152,8 @@ pub fn gen_case(t: &mut Tape) -> Case {
     } else {
         None
     };
-    Case { method, req_v10, head, tail, late_100 }
+    let expecting = late_100.is_none() && t.chance(12);
+    Case { method, req_v10, head, tail, late_100, expecting }
 }
 
 /// The prefix lengths to offer for a head of `len` bytes (strict prefixes only), ascending.
@@ -244,6 +247,7 @@ pub fn exec(t: &mut Tape, st: &mut Stats) -> Result<(), String> {
     // bare 100, which it must skip; the head H then follows as for any other flow
     let mk_flow = || -> Result<_, String> {
         match &case.late_100 {
+            None if case.expecting => flow_recv(&case.method, case.req_v10, &[("expect", "100-continue")]),
             None => flow_recv(&case.method, case.req_v10, &[]),
             Some((h, p, _)) => {
                 let mut f = flow_recv(&case.method, case.req_v10, &[("expect", "100-continue")])?;
@@ -262,6 +266,9 @@ pub fn exec(t: &mut Tape, st: &mut Stats) -> Result<(), String> {
     let mk_call = || call_recv(&case.method, case.req_v10);
     if case.late_100.is_some() {
         st.class("late_100_prologue");
+    }
+    if case.expecting {
+        st.class("flow_still_expecting_100");
     }
 
     let whole_first = matches!(case.late_100, Some((_, _, true)));
@@ -400,7 +407,7 @@ pub static DEF: PropDef = PropDef {
     id: "C05",
     rule: "random heads: response version 1.0/1.1, status 101..999 (half of them 3xx), reason in {short, none, empty, \
 200 bytes, obs-text}, 0..140 fields (1 % of small heads get a 64-100 KiB value; plain, repeated names in other case, Location, Set-Cookie, valid Content-Length / \
-Transfer-Encoding, Connection (also repeated 3..9 times or as one long list), empty values, OWS variants, obs-text), 0..64 tail bytes; 15 % of the flows \
+Transfer-Encoding, Connection (also repeated 3..9 times or as one long list), empty values, OWS variants, obs-text), 0..64 tail bytes; 12 % of the flows sent Expect: 100-continue and have seen no 100 yet; 15 % \
 first skip a late interim 100 (offered as a prefix, then whole), after which the head comes either prefix by prefix or in one piece; for heads up to 600 bytes EVERY \
 strict prefix (else every length <= 200, every line end -2..+2, 120 sampled, the last 3) is offered in ascending order to \
 parser::try_parse_response::<128>, one Call<RecvResponse> and one Flow<RecvResponse> (GET/HEAD/POST, request 1.0/1.1): each \
